@@ -21,4 +21,5 @@ def obligations(tier):
         for (it, ot) in [(0, 0), (5, 6), (3, 7), (6, 1)]:
             for kind in (2, 3, 8):
                 obls.append(api_step(op, it, ot, kind, 2))
+    obls += kern_set(tier)        # L3: every access of the real kernels inside the FIFO allocations / coefficient table, library asserts on
     return obls
